@@ -143,10 +143,19 @@ def compare_outcome(res, stream, st, case, action, impl_status, impl_out, impl_b
     return ok
 
 
-def extract_tree(sc, verbose, into=None):
-    """run --extract in a clean copy; returns (status, out, {relpath: bytes})"""
+def extract_tree(sc, verbose, into=None, stale=None):
+    """run --extract in a clean copy; returns (status, out, {relpath: bytes}).  `stale`: files planted at the destination
+    before the run (results of an earlier extraction: the documented behaviour is to overwrite them)"""
     x = sc.ctx.fresh_dir()
     shutil.copy(os.path.join(sc.dir, sc.archive), os.path.join(x, sc.archive))
+    for rel, data in (stale or {}).items():
+        try:
+            full = os.path.join(x, into or "", rel)
+            os.makedirs(os.path.dirname(full), exist_ok=True)
+            with open(full, "wb") as f:
+                f.write(data)
+        except (OSError, ValueError):
+            pass
     argv = ["-x"] + (["-v"] if verbose else []) + ([f"--into", into] if into else []) + [sc.archive]
     status, out = D.dar(sc.fl, argv, cwd=x)
     snap = T.snapshot(x)
